@@ -4,14 +4,39 @@ package main
 
 import "github.com/welllog/golib/listz"
 
+// The iterator value of All() is taken once per list and ranged at every observation (first a pass that stops after
+// one pair, then a full one): an iter.Seq2 is evaluated when it is ranged, however long it has been held.
+var (
+	heldSkip = map[*listz.SkipList[int, int]]func(func(int, int) bool){}
+	heldCmp  = map[*listz.SkipListWithCmp[int, int]]func(func(int, int) bool){}
+)
+
 func allSkip(s *listz.SkipList[int, int], mk func(int) int) [][]int {
+	seq, ok := heldSkip[s]
+	if !ok {
+		if len(heldSkip) > 256 {
+			heldSkip = map[*listz.SkipList[int, int]]func(func(int, int) bool){}
+		}
+		seq = s.All()
+		heldSkip[s] = seq
+	}
+	seq(func(int, int) bool { return false })
 	out := [][]int{}
-	s.All()(func(k, v int) bool { out = append(out, []int{mk(k), v}); return len(out) < 1<<12 })
+	seq(func(k, v int) bool { out = append(out, []int{mk(k), v}); return len(out) < 1<<12 })
 	return out
 }
 
 func allCmp(s *listz.SkipListWithCmp[int, int], mk func(int) int) [][]int {
+	seq, ok := heldCmp[s]
+	if !ok {
+		if len(heldCmp) > 256 {
+			heldCmp = map[*listz.SkipListWithCmp[int, int]]func(func(int, int) bool){}
+		}
+		seq = s.All()
+		heldCmp[s] = seq
+	}
+	seq(func(int, int) bool { return false })
 	out := [][]int{}
-	s.All()(func(k, v int) bool { out = append(out, []int{mk(k), v}); return len(out) < 1<<12 })
+	seq(func(k, v int) bool { out = append(out, []int{mk(k), v}); return len(out) < 1<<12 })
 	return out
 }
